@@ -190,12 +190,15 @@ pub struct Exec {
     /// explicit seeds handed to `backward` are kept by the caller (a clone and a reshaped view of each): a pass that
     /// changed one of them is recorded here (judged by C08 only)
     pub seed_mutations: Vec<String>,
+    /// keep a clone and a view of every explicit seed across the pass (default); off: the seed is handed over as the
+    /// only handle on its buffer
+    pub keep_seeds: bool,
 }
 
 impl Exec {
     pub fn new() -> Exec {
         let acts = SHARED_ACTS.with(|s| s.borrow().clone()).unwrap_or_else(Acts::fresh);
-        Exec { acts, slots: Vec::new(), log: Rc::new(RefCell::new(Vec::new())), n_custom: 0, custom_of_slot: Vec::new(), seed_mutations: Vec::new() }
+        Exec { acts, slots: Vec::new(), log: Rc::new(RefCell::new(Vec::new())), n_custom: 0, custom_of_slot: Vec::new(), seed_mutations: Vec::new(), keep_seeds: true }
     }
     pub fn get(&self, h: usize) -> &Array {
         self.slots[h].as_ref().expect("dead slot")
@@ -338,7 +341,7 @@ impl Exec {
                 }
                 let seed = seed.as_ref().map(|s| arr(a.dimensions(), s));
                 // the caller keeps its seed: a clone and a flat view of it must read the same afterwards
-                let kept = seed.as_ref().map(|s| (s.clone(), s.reshape(vec![s.values().len()]), s.values().iter().map(|v| (*v as f64).to_bits()).collect::<Vec<u64>>()));
+                let kept = if self.keep_seeds { seed.as_ref().map(|s| (s.clone(), s.reshape(vec![s.values().len()]), s.values().iter().map(|v| (*v as f64).to_bits()).collect::<Vec<u64>>())) } else { None };
                 guarded(|| a.backward(seed))?;
                 if let Some((c, v, bits)) = kept {
                     for (what, arr_) in [("the seed", &c), ("a reshaped view of the seed", &v)] {
